@@ -34,6 +34,11 @@ def harnesses(tier):
                    unwind=AN + 4, unwindset=['mmd_assign_ambidextrous_tokens_in_block:2'], timeout=1500, mem_gb=8, slice=True,
                    bounds='every source of 1..%d bytes, one delimiter token of 14 look-around kinds at every offset (incl. first and last byte), all extension sets' % AN,
                    desc='mmd_assign_ambidextrous_tokens_in_block: look-behind/look-ahead never leaves the source'))
+    LXN = 2 if tier == 'quick' else 3
+    hs.append(dict(name='c01_lexer', src='irb/lexer.c', defs=dict(N=LXN), prepare=irb.prepare_lexer,
+                   unwind_auto=[10 * LXN, 16 * LXN, 25 * LXN, 40 * LXN], timeout=1500 if tier == 'quick' else 6000, mem_gb=10,
+                   bounds='every NUL-terminated buffer of 1..%d bytes (all byte values), scan() called until end of input' % LXN,
+                   desc='lexer scan() (IR of the current lexer.c): reads inside the buffer only, writes only its Scanner'))
     hs.append(dict(name='c01_reset_ownership', src='c05/reset.c', defs=dict(OWNERSHIP=1, DS_CAP=8), pool_off=True,
                    units=['repo:mmd.c', 'repo:writer.c', 'repo:token.c', 'repo:stack.c', 'repo:object_pool.c', 'repo:char.c', 'common/ds_model.c'],
                    unwind=12, unwindset=['token_free:5', 'token_tree_free:5'], timeout=900, mem_gb=8, slice=True,
